@@ -181,6 +181,61 @@ def run(chk):
             ndis += 1
             chk.tie_break('correspondence:glat', 'glyph attributes as read by the loader differ from Model/GlatModel.v [%s]: impl %s model %s' % (desc, ' '.join(gv)[:300], ' '.join(mt[3:5] + mvals)[:300]), c[:300])
     dist.update({'glat ' + k: v for k, v in gstats.items()})
+    # --- the class map of a Silf subtable: Silf::readClassMap on exact-size heap copies against Model/ClassMapModel.v (verdict, counts, hashes of
+    #     the offsets and of the class data); C01_class_map_reads_in_bounds says the model never reads outside the data_len bytes it is given
+    cmexe = vlib.build_model_driver('ClassMap')
+    ccases = []
+    for k in range(8000 if thorough else 800):
+        wide = rng.random() < 0.4
+        w = 4 if wide else 2
+        nlin = rng.choice((0, 1, 2, 5)); nlook = rng.choice((0, 1, 2, 4))
+        ncls = nlin + nlook
+        blocks = [[rng.randrange(1, 300) for _ in range(rng.randrange(0, 5))] for _ in range(nlin)]
+        for _ in range(nlook):
+            nid = rng.randrange(1, 6)
+            sr = 1
+            while sr * 2 <= nid: sr *= 2
+            blocks.append([nid, sr, sr.bit_length() - 1, nid - sr] + [x for g in sorted(rng.sample(range(1, 400), nid)) for x in (g, rng.randrange(0, 50))])
+        cls_off = 4 + w * (ncls + 1)
+        offs, cur = [], cls_off
+        for bl in blocks:
+            offs.append(cur); cur += 2 * len(bl)
+        offs.append(cur)
+        body = b''.join(struct.pack('>H', x) for bl in blocks for x in bl)
+        tbl = bytearray(struct.pack('>HH', ncls, nlin) + b''.join(struct.pack('>I' if wide else '>H', o & (0xFFFFFFFF if wide else 0xFFFF)) for o in offs) + body)
+        kind = rng.choice(('valid', 'valid', 'field', 'field', 'byte', 'trunc', 'big', 'extend'))
+        if kind == 'field' and len(tbl) >= 4:
+            fo = 2 * rng.randrange(0, min(len(tbl), 4 + w * (ncls + 1) + 8) // 2)
+            v = struct.unpack('>H', tbl[fo:fo + 2])[0] if fo + 2 <= len(tbl) else 0
+            if fo + 2 <= len(tbl):
+                tbl[fo:fo + 2] = struct.pack('>H', rng.choice((0, 1, v + 1, v - 1, v + 2, v * 2, 0x7FFF, 0x8000, 0xFFFF, len(tbl), len(tbl) // 2)) & 0xFFFF)
+        elif kind == 'byte' and tbl:
+            for _ in range(rng.randrange(1, 4)):
+                tbl[rng.randrange(len(tbl))] = rng.randrange(256)
+        elif kind == 'trunc':
+            tbl = tbl[:rng.randrange(0, len(tbl) + 1)]
+        elif kind == 'extend':
+            tbl += bytes(rng.randrange(256) for _ in range(rng.randrange(1, 9)))
+        elif kind == 'big' and k % 8 == 0:
+            n2 = rng.choice((32765, 32766, 32766, 32767, 40000, 65535)); nl2 = rng.choice((n2, n2, 0, n2 - 1))
+            co = 4 + w * (n2 + 1); st = rng.choice((0, 2))
+            tbl = bytearray(struct.pack('>HH', n2, nl2) + b''.join(struct.pack('>I' if wide else '>H', (co + st * i) & (0xFFFFFFFF if wide else 0xFFFF)) for i in range(n2 + 1)) + struct.pack('>H', 3) * rng.choice((0, 5, n2)))
+        ccases.append('cm%d classmap %s %s' % (k, rng.choice(('40000', '50000')) if wide else rng.choice(('20000', '30000')), bytes(tbl).hex() or '-'))
+    cml, cil, _ = vlib.run_pair(cmexe, hexe, ccases, timeout=2400)
+    cstats = {}
+    for c, m, i in zip(ccases, cml, cil):
+        if i is None or m is None:
+            chk.tie_break('harness', 'no result line', c[:200]); continue
+        if 'ABORT' in i.split()[1:3]:
+            chk.violation('c01:classmap-abort:%s' % c.split()[3][:60], 'Silf::readClassMap aborted on a crafted class map (sanitizer report or watchdog): %s' % i[:300], dict(case=c[:6000], got=i[:600])); continue
+        if ' TRAP' in m:
+            chk.tie_break('correspondence:classmap', 'Model/ClassMapModel.v reads outside the class map: %s' % m[:200], c[:300]); continue
+        cstats[i.split()[2]] = cstats.get(i.split()[2], 0) + 1
+        classes.add(('classmap', i.split()[2], c.split()[2], min(len(c.split()[3]) // 40, 8)))
+        if i.split()[1:] != m.split()[1:]:
+            ndis += 1
+            chk.tie_break('correspondence:classmap', 'Silf::readClassMap and Model/ClassMapModel.v disagree: impl %s model %s' % (i[:200], m[:200]), c[:400])
+    dist.update({'classmap ' + k: v for k, v in cstats.items()})
     # --- oracle: load + query everything + destroy
     cases, keep = [], {}
     fz = os.path.join(vlib.REPO, 'tests', 'fuzz-tests')
@@ -392,10 +447,10 @@ def run(chk):
             chk.violation('c01:%s:%s' % (t[2] if 'ABORT' in t[1:3] and len(t) > 2 else 'leak', keep.get(f[2], '?')[:100]), bad, rp)
     shutil.rmtree(tmp, ignore_errors=True)
     chk.notes.append('load oracle: %s; %d historical crashers replayed' % (sorted(stats.items()), nhist))
-    chk.cov.update(evaluations=len(scases) + len(cases) + len(pcases) + len(gcases), distinct_nontrivial=len(classes), disagreements_checked=ndis, distribution=dist,
+    chk.cov.update(evaluations=len(scases) + len(cases) + len(pcases) + len(gcases) + len(ccases), distinct_nontrivial=len(classes), disagreements_checked=ndis, distribution=dist,
                    rule='container: synthetic sfnt files (0..41 tables, offsets / lengths at, just past and far past the end, 32-bit extremes, wrong scaler, truncation anywhere, disagreeing table count) through FileFace '
                         'and the model, table by table; oracle: %d historical single-byte crashers from tests/fuzz-tests plus byte-mutated (30%%), field-mutated (30%%: aligned 16/32-bit fields of the Silf header and first subtable, Feat, Sill, name, Gloc, Glat, hhea, maxp, loca, hmtx, head set to boundary values), directory-mutated (25%%) and truncated (15%%) copies of the 16 shipped fonts x '
-                        'option bits 0..7 x {callbacks, file}, plus the LZ4 block families of C14 wrapped as compressed Silf / Glat tables: make, all face / feature / label / feature-value queries, glyph lookups, destroy, LeakSanitizer; compiled GDL-lite fonts with field-level edits of one pass (16/32-bit header fields, body bytes, pass boundaries): loader verdict against the model of Pass::readPass; Gloc / Glat pairs (versions 1 / 2, short / long offsets, attribute-id arrays; valid, and damaged: odd block lengths, run counts claiming more values than the block holds, a block ending at the end of the table, decreasing / overshooting offsets, truncation, header limits, keys out of order) against Model/GlatModel.v: face verdict, per-glyph verdict and attribute values; non-trivial = distinct (source, options, mode, verdict)' % nhist,
+                        'option bits 0..7 x {callbacks, file}, plus the LZ4 block families of C14 wrapped as compressed Silf / Glat tables: make, all face / feature / label / feature-value queries, glyph lookups, destroy, LeakSanitizer; compiled GDL-lite fonts with field-level edits of one pass (16/32-bit header fields, body bytes, pass boundaries): loader verdict against the model of Pass::readPass; class maps (16- / 32-bit offsets, linear and lookup classes; valid, field / byte edits, truncation, trailing bytes, 32765..65535 classes with offsets written modulo 65536) through Silf::readClassMap against Model/ClassMapModel.v; Gloc / Glat pairs (versions 1 / 2, short / long offsets, attribute-id arrays; valid, and damaged: odd block lengths, run counts claiming more values than the block holds, a block ending at the end of the table, decreasing / overshooting offsets, truncation, header limits, keys out of order) against Model/GlatModel.v: face verdict, per-glyph verdict and attribute values; non-trivial = distinct (source, options, mode, verdict)' % nhist,
                    samples=[scases[0][:200], cases[0][:200]], exhaustive=False)
 
 
